@@ -267,15 +267,22 @@ func AssembleFile(ctx context.Context, name string, idx Index, s Store, seeds []
 	pb.Start()
 	defer pb.Finish()
 
+	var feedErr error
 loop:
 	for _, segment := range plan {
 		select {
 		case <-ctx.Done():
+			// Either a worker failed (its error is returned below) or the
+			// operation was cancelled before all segments were handed out
+			feedErr = Interrupted{}
 			break loop
 		case in <- Job{segment.indexSegment, segment.source}:
 		}
 	}
 	close(in)
 
-	return stats, g.Wait()
+	if err := g.Wait(); err != nil {
+		return stats, err
+	}
+	return stats, feedErr
 }
